@@ -564,7 +564,7 @@ func (g *syn) args(d int) string {
 
 // constant-ish leaves are deliberately frequent: constant folding is context dependent.
 var literalPool = []string{"0", "1", "2", "-1", "0.5", "1e3", "0x10", "0b11", "0o7", "1_000", "07", "09", ".5", "5.", "NaN", "Infinity", "-0", "2147483647", "4294967296", "9007199254740993", "1n", "0n", "-5n", "123456789012345678901234567890n",
-	"\"\"", "\"a\"", "'b'", "\"\\u0041\\x42\\n\\0\"", "\"\\u{1F600}\"", "\"é\"", "`t`", "true", "false", "null", "undefined", "void 0", "this", "[]", "{}", "[,]", "[1,,2]"}
+	"\"\"", "\"a\"", "'b'", "\"\\u0041\\x42\\n\\0\"", "\"\\u{1F600}\"", "\"\\u{10FFFF}\"", "\"\\u{0}\\u{00FFFF}\"", "\"é\"", "`t`", "true", "false", "null", "undefined", "void 0", "this", "[]", "{}", "[,]", "[1,,2]"}
 
 var binOps = []string{"+", "-", "*", "/", "%", "**", "&", "|", "^", "<<", ">>", ">>>", "<", ">", "<=", ">=", "==", "!=", "===", "!==", "instanceof", "in", "&&", "||", "??", ","}
 var assignOps = []string{"=", "+=", "-=", "*=", "/=", "%=", "**=", "&=", "|=", "^=", "<<=", ">>=", ">>>=", "&&=", "||=", "??="}
